@@ -3,7 +3,9 @@ PLAN = {
     "quick": [replays("C20"), tape("C20", 1200, size=600)],
     "thorough": [replays("C20"), tape("C20", 15000, size=700)],
     "class_floors": {"executed": 0.5, "ode": 0.12, "U:subset-of-S": 0.1, "special:voi": 0.02, "special:non-primary": 0.04, "special:duplicate": 0.04, "special:foreign": 0.04,
-                     "marked:state": 0.08, "marked:nla_unknown": 0.04, "marked:algebraic": 0.05, "marked:computed_constant": 0.1, "marked:constant": 0.2, "dep-on:external": 0.1, "dep-on:algebraic": 0.02},
+                     "marked:state": 0.08, "marked:nla_unknown": 0.04, "marked:algebraic": 0.05, "marked:computed_constant": 0.1, "marked:constant": 0.2, "dep-on:external": 0.1, "dep-on:algebraic": 0.02,
+                     "stale-order": 0.1, "declared-dep-on-unmarked-state": 0.1, "state-based-only-through-declared-dependency(feeds-a-rate)": 0.04,
+                     "stale-order+state-based-only-through-declared-dependency": 0.04},
 }
 CLAIM = {
     "engine": "rapidcheck-tape",
